@@ -405,8 +405,41 @@ func init() {
 		c.Group("C14/state-machine", "State is assigned only by three constant options; each is applied only under its typestate guard on the store read under the cluster write lock (held until the new state is published)", func() { ruleStoreStateMachine(c) })
 		c.Group("C14/bury-when-empty", "buryStore is called only under GetStoreRegionCount(id) == 0; only tombstones are deleted", func() { ruleBuryWhenEmpty(c) })
 		c.Group("C14/role-index-table", "(shared with C07) the count a store is buried on is complete: every voter, learner and pending peer of a region is filed in its per-store index, whatever its joint-consensus role", func() { ruleRoleIndexTable(c) })
-		c.Group("C14/persist-before-serve", "the served store set changes only after the storage write succeeded, with the same record; heartbeats publish volatile attributes only", func() { ruleStorePersistBeforeServe(c) })
+		c.Group("C14/persist-before-serve", "the served store set changes only after the storage write succeeded, with the same record; heartbeats publish volatile attributes only", func() { ruleStorePersistBeforeServe(c); ruleSavedStoreIsServed(c) })
 		c.Group("C14/admission", "id 0 and duplicate addresses (among live stores) are rejected; tombstones are refused at the RPC", func() { ruleStoreAdmission(c); ruleAddressScanAlways(c) })
 		c.Group("C14/store-rmw-atomic", "reading a cached store and publishing its modified clone happen under one hold of the cluster lock", func() { ruleStoreRMW(c) })
 	})
+}
+
+// ruleSavedStoreIsServed: the converse of persist-before-serve. A function of
+// the cluster that writes a store record to storage and reports success has
+// published that record in the served store set (and one that deletes a record
+// has dropped it): what is stored and what is served stay equal.
+func ruleSavedStoreIsServed(c *Ctx) {
+	P := c.P
+	rule := c.Prop + "/persist-before-serve"
+	pairs := []struct {
+		store, pub Callee
+		what       string
+	}{
+		{F(P.Method("server/core", "Storage", "SaveStore")), F(P.Method("server/core", "BasicCluster", "PutStore")), "saved → served"},
+		{F(P.Method("server/core", "Storage", "DeleteStore")), F(P.Method("server/core", "BasicCluster", "DeleteStore")), "deleted → dropped"},
+	}
+	n := 0
+	for _, fn := range P.Funcs {
+		if P.isScaffold(fn) || fnPkgPath(fn) != modPath+"/server/cluster" || fn.Parent() != nil {
+			continue
+		}
+		for _, pr := range pairs {
+			if len(callsIn(fn, false, pr.store)) == 0 {
+				continue
+			}
+			n++
+			c.mustFollow(rule, fn, "the storage write ("+pr.what+")", instrCallMatcher(pr.store), "the matching update of the served store set", instrCallMatcher(pr.pub), errorExit,
+				"after a store record was written (deleted) and the function goes on to report success, the served store set is updated with it")
+		}
+	}
+	if n < 2 {
+		c.Undec(rule, "cluster functions writing store records", "at least 2 (putStoreLocked, the tombstone removal)", "", fmt.Sprint(n))
+	}
 }
